@@ -54,6 +54,7 @@ pub struct CaseResult {
 
 pub const ALL_OPS: &[&str] = &[
     "map", "filter", "scan", "take", "skip", "merge", "concat", "combine", "flatten", "share", "for_each", "tree",
+    "from_iter",
 ];
 
 fn gen_unop(c: &mut Chooser, which: &str) -> UnOp {
@@ -80,7 +81,7 @@ pub fn gen_probe_spec(c: &mut Chooser, allow_dispose: bool) -> ProbeSpec {
             let base = if c.chance(1, 2) { React::Pull } else { React::Nothing };
             let mut policy = vec![base; k];
             policy.push(if c.chance(2, 3) { React::Terminate } else { React::Error });
-            ProbeSpec { policy, rest: base }
+            ProbeSpec { policy, rest: base, pull_cap: 1000 }
         },
         _ => {
             let n = 1 + c.choose(6);
@@ -104,7 +105,7 @@ pub fn gen_probe_spec(c: &mut Chooser, allow_dispose: bool) -> ProbeSpec {
                 policy.push(r);
             }
             let rest = [React::Nothing, React::Pull][c.choose(2)];
-            ProbeSpec { policy, rest }
+            ProbeSpec { policy, rest, pull_cap: 1000 }
         },
     }
 }
@@ -138,8 +139,37 @@ fn gen_node(c: &mut Chooser, depth: usize) -> Node {
     }
 }
 
+/// Trees for the C14 environment. C14 presupposes upstreams that answer each Pull with one Data
+/// *or* their end and emit nothing unrequested. take(n) completes right after its nth datum, i.e.
+/// its output sends an unrequested end; it is therefore a legal last stage but not a legal
+/// member of concat! / inner of flatten in this environment (`allow_take` = false below them).
+fn gen_node_pull(c: &mut Chooser, depth: usize, allow_take: bool) -> Node {
+    if depth == 0 {
+        return Node::Leaf;
+    }
+    match c.choose(8) {
+        0 | 1 | 2 | 3 => {
+            let which = if allow_take {
+                ["map", "filter", "scan", "take", "skip"][c.choose(5)]
+            } else {
+                ["map", "filter", "scan", "skip"][c.choose(4)]
+            };
+            Node::Un(gen_unop(c, which), Box::new(gen_node_pull(c, depth - 1, allow_take)))
+        },
+        4 | 5 => {
+            let n = 1 + c.choose(3);
+            Node::Concat((0..n).map(|_| gen_node_pull(c, depth - 1, false)).collect())
+        },
+        _ => {
+            let n = c.choose(3);
+            Node::Flatten((0..n).map(|_| gen_node_pull(c, depth - 1, false)).collect())
+        },
+    }
+}
+
 /// Generate a case for operator `op` (one of ALL_OPS).
 pub fn gen_case(c: &mut Chooser, op: &str, prop: &str) -> CaseSpec {
+    let credit = prop == "C14";
     let mut allow_late = false;
     let mut n_probes = 1;
     let topo = match op {
@@ -159,16 +189,25 @@ pub fn gen_case(c: &mut Chooser, op: &str, prop: &str) -> CaseSpec {
             n_probes = 0;
             Topo::ForEach
         },
+        "from_iter" => Topo::FromIter([Some(0), Some(1), Some(2), Some(3), Some(6), None][c.choose(6)]),
         _ => {
             let d = 1 + c.choose(3);
-            Topo::Tree(gen_node(c, d))
+            if credit {
+                Topo::Tree(gen_node_pull(c, d, true))
+            } else {
+                Topo::Tree(gen_node(c, d))
+            }
         },
     };
+    if credit {
+        allow_late = false;
+    }
     let n_puppets = match &topo {
         Topo::Unary(_) | Topo::Share(_) | Topo::ForEach => 1,
         Topo::Merge(n) | Topo::Concat(n) | Topo::Combine(n) => *n,
         Topo::Flatten(n) => 1 + n,
         Topo::Tree(n) => n.n_leaves(),
+        Topo::FromIter(_) => 0,
     };
     let mut pspecs = vec![];
     let mut lens = vec![];
@@ -178,7 +217,11 @@ pub fn gen_case(c: &mut Chooser, op: &str, prop: &str) -> CaseSpec {
             // for_each pulls by itself; every mode is fine
             _ => ALL_MODES,
         };
-        let mut s = gen_puppet_spec(c, allow_late, modes, fins);
+        let mut s = if credit {
+            gen_puppet_spec(c, false, &[Mode::PullSync, Mode::PullDeferred], &[Fin::End])
+        } else {
+            gen_puppet_spec(c, allow_late, modes, fins)
+        };
         if matches!(topo, Topo::Flatten(_)) && i == 0 {
             // the outer's length is the number of inners
             s.late = false;
@@ -195,16 +238,21 @@ pub fn gen_case(c: &mut Chooser, op: &str, prop: &str) -> CaseSpec {
     if let Topo::Tree(node) = &topo {
         fix_tree_lens(node, &mut lens, &mut 0);
     }
-    let probe_specs: Vec<ProbeSpec> = (0..n_probes).map(|_| gen_probe_spec(c, true)).collect();
+    let mut probe_specs: Vec<ProbeSpec> = (0..n_probes).map(|_| gen_probe_spec(c, !credit)).collect();
+    if let Topo::FromIter(None) = &topo {
+        for p in probe_specs.iter_mut() {
+            p.pull_cap = 5 + c.choose(30);
+        }
+    }
     CaseSpec {
         topo,
         pspecs,
         lens,
         probe_specs,
         max_steps: 6 + c.choose(20),
-        drain: c.chance(1, 2),
-        credit_env: false,
-        weights: [8, 5, 4, 1, 1, 4],
+        drain: credit || c.chance(1, 2),
+        credit_env: credit,
+        weights: if credit { [8, 5, 4, 0, 0, 4] } else { [8, 5, 4, 1, 1, 4] },
     }
 }
 
